@@ -946,8 +946,10 @@ class TestResult(unittest.TestResult):
                 return self.buffer.getvalue().decode(
                     encoding=self.encoding, errors=self.errors)
 
+        # Tests may write any bytes through ``.buffer``: never fail on them.
         return BufferedStandardStream(
-            io.BytesIO(), newline='\n', write_through=True)
+            io.BytesIO(), newline='\n', write_through=True,
+            errors='backslashreplace')
 
     def _setUpStdStreams(self):
         """Set up buffered standard streams, if requested."""
